@@ -84,6 +84,7 @@ class Target:
         self.blob = bytes(blob)
         self.protect_args = None
         self.fields = field_ranges(self.blob)
+        self.parsed = blobref.parse_blob(self.blob)
         if self.unprotect(self.blob)[0] != "plain_ok":
             raise MachineryError("target blob does not decrypt with its own key material")
 
